@@ -673,4 +673,34 @@ theorem collectLoop_spec {P : Prim} {Copied : FileObj → FileObj → Op → Pro
           have h4 := ((spec.inv.good a ha).fresh hla p hpa).2.2.2.1
           exact (ih.freshS m hm b hbm hlb p hpb).1 h4
 
+/-! ### the staging gate -/
+
+mutual
+theorem containsType_iff : ∀ t : Ty, containsType t = true ↔ ∃ n, n ∈ Ty.fileLeaves t
+  | .file n => by simp [containsType, Ty.fileLeaves]
+  | .atom _ => by simp [containsType, Ty.fileLeaves]
+  | .union args => by simp only [containsType, Ty.fileLeaves]; exact containsAny_iff args
+  | .mapping k v => by
+    simp only [containsType, Ty.fileLeaves, Bool.or_eq_true, List.mem_append, containsType_iff k, containsType_iff v]
+    constructor
+    · rintro (⟨n, h⟩ | ⟨n, h⟩)
+      · exact ⟨n, Or.inl h⟩
+      · exact ⟨n, Or.inr h⟩
+    · rintro ⟨n, h | h⟩
+      · exact Or.inl ⟨n, h⟩
+      · exact Or.inr ⟨n, h⟩
+  | .seq args _ => by simp only [containsType, Ty.fileLeaves]; exact containsAny_iff args
+theorem containsAny_iff : ∀ ts : List Ty, containsAny ts = true ↔ ∃ n, n ∈ Ty.fileLeavesL ts
+  | [] => by simp [containsAny, Ty.fileLeavesL]
+  | t :: ts => by
+    simp only [containsAny, Ty.fileLeavesL, Bool.or_eq_true, List.mem_append, containsType_iff t, containsAny_iff ts]
+    constructor
+    · rintro (⟨n, h⟩ | ⟨n, h⟩)
+      · exact ⟨n, Or.inl h⟩
+      · exact ⟨n, Or.inr h⟩
+    · rintro ⟨n, h | h⟩
+      · exact Or.inl ⟨n, h⟩
+      · exact Or.inr ⟨n, h⟩
+end
+
 end PydraModel.Files
